@@ -4,7 +4,7 @@ C08 — Formatting renders the truncated value in the requested shape.
 -/
 import Sqroot.Proofs.Format
 import Sqroot.Proofs.Overflow
-import Sqroot.Proofs.EndToEnd
+import Sqroot.Proofs.EndToEndFormat
 import Sqroot.Proofs.Format12
 namespace Sqroot.Props.C08
 open Sqroot.Model Sqroot.Proofs
